@@ -18,6 +18,7 @@ def b64urlenc(b): return list(base64.urlsafe_b64encode(bytes(b)))
 def calls_for(x):
     out = ["Codec %s %s" % (fn, fmt(x)) for fn in ENC]
     out.append("Codec hexdec_c %s" % fmt(hexenc(x)))
+    out.append("Codec hexdec_c_inplace %s" % fmt(hexenc(x)))
     out.append("Codec b64dec %s" % fmt(b64enc(x)))
     out.append("Codec b64urldec %s" % fmt(b64urlenc(x)))
     return out
